@@ -14,7 +14,8 @@ META = {
                    "max_sweeps is exceeded; at the left end the state is orthogonalised on site 0 and the sweep "
                    "counted before the gate. ROLE/TRUNCARGS: residual_tolerance = config.precision, Krylov norm "
                    "tolerance = precision·extra_krylov_tolerance, split with config.precision/max_bond_dim. CONV: "
-                   "the Lanczos client uses the raising entry. DISPATCH: create_impl/DMRG refuse noise.",
+                   "the Lanczos client uses the raising entry. DISPATCH: create_impl/DMRG refuse noise. "
+                   "CONV-gate: every path of DMRGBackendImpl.progress that advances the time step has minimised the energy and passed convergence_check; timestep_complete is called from sweep_complete only.",
     "not_decided": "the energies reached (variational bound, gap-dependent accuracy)",
     "trusted_base": ["CPython ast", "sa.interp", "sa.algebra"],
     "assumptions": [],
